@@ -152,9 +152,11 @@ def r2_overflow_reported(ck, P):
             y = f.v(br.a[0])
             if y is not None and y.op == 'fcmp':
                 taken_true = br.d['succ'][0] == succ
-                if y.pred in ('ogt', 'oge', 'ugt', 'uge') and not taken_true:
+                # `d > U` refused (false edge continues) or `d <= U` required (true edge continues): an upper bound either way;
+                # the exact bounds are decided by C11-R6
+                if (y.pred in ('ogt', 'oge', 'ugt', 'uge') and not taken_true) or (y.pred in ('olt', 'ole', 'ult', 'ule') and taken_true):
                     hi = True
-                if y.pred in ('olt', 'ole', 'ult', 'ule') and not taken_true:
+                if (y.pred in ('olt', 'ole', 'ult', 'ule') and not taken_true) or (y.pred in ('ogt', 'oge', 'ugt', 'uge') and taken_true):
                     lo = True
         if lo and hi:
             ck.ok(R, 'from_f_transform: cast guarded by both range tests')
